@@ -227,12 +227,18 @@ pub fn gen_comment(r: &mut Rng, cfg: &GenCfg) -> String {
     if cfg.big && r.chance(30) {
         out.push("pad ".repeat(r.range(100, 2500) as usize).trim_end().to_string());
     }
-    let s = out.join("\n");
+    let mut s = out.join("\n");
     if s.is_empty() {
-        "c".into()
-    } else {
-        s
+        s = "c".into();
     }
+    // a comment may begin or end with a line break (an empty first / last line)
+    if r.chance(10) {
+        s.push('\n');
+    }
+    if r.chance(5) {
+        s.insert(0, '\n');
+    }
+    s
 }
 
 fn gen_names(r: &mut Rng, n: usize, cfg: &GenCfg, mut f: impl FnMut(&mut Rng) -> String) -> Names {
@@ -453,10 +459,14 @@ pub fn valid_obj_class_name(s: &str) -> bool {
     !s.starts_with('[') && s.split('/').all(valid_unqualified)
 }
 
+/// Prefix of the error for input that is not UTF-8 text at all. Unlike other reference errors this one is not a
+/// matter of reader tolerance: a reader that answers Ok on such input has dropped or invented data.
+pub const UNDECODABLE: &str = "undecodable input (not UTF-8)";
+
 /// Splits text the way a line-oriented reader over `BufRead::lines` does: at '\n', a preceding '\r' dropped,
 /// a final unterminated line counts. Invalid UTF-8 is an error.
 pub fn split_lines(bytes: &[u8]) -> Result<Vec<&str>, String> {
-    let s = std::str::from_utf8(bytes).map_err(|e| format!("invalid utf-8: {e}"))?;
+    let s = std::str::from_utf8(bytes).map_err(|e| format!("{UNDECODABLE}: {e}"))?;
     let mut v = vec![];
     let mut rest = s;
     while !rest.is_empty() {
